@@ -196,7 +196,7 @@ def body(ctx):
 
 def plan(tier):
     if tier == "quick":
-        return [{"n": 500, "depth": 2} for _ in range(16)]
+        return [{"n": 320, "depth": 2} for _ in range(16)]
     return [{"n": 4000, "depth": 2 if i % 2 else 3} for i in range(16)]
 
 
